@@ -141,6 +141,13 @@ pub fn build<Ef: LabEffect>(cmd: &Cmd) -> Command<Ef, Event> {
             let inner: Command<Wrapped<Ef>, WrappedEv> = build::<Ef>(c).into();
             Command::from(inner)
         }
+        Cmd::Guarded(c, counter) => {
+            let guard = HoldGuard::new(*counter);
+            build::<Ef>(c).map_event(move |e: Event| {
+                let _keep = &guard;
+                e
+            })
+        }
         Cmd::Abortable(c, h) => {
             let built = build::<Ef>(c);
             let handle = built.abort_handle();
